@@ -37,10 +37,12 @@ def run(ck):
             m, v1, v2, _ = ic.eval_cases(ck, "C02_shrink", [c])
             return bool(v2)
         worst = ic.shrink(ck, "ingest", worst, still_bad)
+        diag = ic.diagnose_variant(ck, "C02_variant", worst)
         ck.violation({"property": "C02", "kind": "a block sent to ClickHouse is not the table of its waiters' rows",
                       "explanation": "smon_step MClean / good_block_red (model/IngestSpec.v, model/IngestCases.v) reject the blocks observed at the fake client: "
                                      "columns of different length, a row whose fields come from different submitted rows, a duplicated or missing row, or rows of a request that is not among the waiters",
-                      "case": worst, "replay": "harness ingest --cases <file with the case object on one line>"})
+                      "case": worst, "replay": "harness ingest --cases <file with the case object on one line>",
+                      **({"interleaving": diag} if diag else {})})
     elif res["mism"] or res["broken"]:
         bad = [byid[i] for i in res["mism"]] or res["broken"]
         worst = ic.smallest(bad)
